@@ -157,14 +157,16 @@ where
     where
         T: Substitutable,
     {
-        fn walk(&mut self, mut typ: &'t T) {
+        fn walk(&mut self, typ: &'t T) {
             if !typ.contains_variables() {
                 return;
             }
             if let Some(other) = typ.get_var() {
                 let other_id = other.get_id();
                 if let Some(real_type) = self.subs.find_type_for_var(other_id) {
-                    typ = real_type;
+                    // `real_type` may itself be a variable (the root of the variables `other` has
+                    // been unified with) so it must be checked as well, not just its contents
+                    return self.walk(real_type);
                 } else {
                     if self.var.get_id() == other_id {
                         self.occurs = true;
